@@ -1,4 +1,5 @@
 import MjProof.Lemmas.Broadphase
+import MjProof.Lemmas.CollideDriver
 import MjProof.Lemmas.RealNum
 /-
 C14  Collision pair selection is complete and respects the filters.
@@ -159,9 +160,8 @@ section filters
     `(contype1 & conaffinity2) || (contype2 & conaffinity1)`, the rule of the documentation; otherwise 1. -/
 theorem filterBitmask_spec (ct1 ca1 ct2 ca2 : Int) :
     (Gen.filterBitmask (α := Float) ct1 ca1 ct2 ca2 = 0 ↔ (intLand ct1 ca2 ≠ 0 ∨ intLand ct2 ca1 ≠ 0)) ∧
-    (Gen.filterBitmask (α := Float) ct1 ca1 ct2 ca2 = 0 ∨ Gen.filterBitmask (α := Float) ct1 ca1 ct2 ca2 = 1) := by
-  unfold Gen.filterBitmask
-  by_cases h1 : intLand ct1 ca2 = 0 <;> by_cases h2 : intLand ct2 ca1 = 0 <;> simp [h1, h2]
+    (Gen.filterBitmask (α := Float) ct1 ca1 ct2 ca2 = 0 ∨ Gen.filterBitmask (α := Float) ct1 ca1 ct2 ca2 = 1) :=
+  ⟨genFilterBitmask_iff ct1 ca1 ct2 ca2, genFilterBitmask_values ct1 ca1 ct2 ca2⟩
 
 /-- `filterBodyPair` discards (≠ 0) exactly in the documented cases: same weld group; both weld groups
     without degrees of freedom; both asleep; one asleep and the other welded to the world; parent and child
@@ -169,17 +169,14 @@ theorem filterBitmask_spec (ct1 ca1 ct2 ca2 : Int) :
 theorem filterBodyPair_spec (w1 pw1 as1 d1 w2 pw2 as2 d2 f : Int) :
     Gen.filterBodyPair (α := Float) w1 pw1 as1 d1 w2 pw2 as2 d2 f ≠ 0 ↔
       (w1 = w2 ∨ (d1 = 0 ∧ d2 = 0) ∨ (as1 ≠ 0 ∧ as2 ≠ 0) ∨ ((as1 ≠ 0 ∧ w2 = 0) ∨ (as2 ≠ 0 ∧ w1 = 0)) ∨
-       (f = 0 ∧ w1 ≠ 0 ∧ w2 ≠ 0 ∧ (w1 = pw2 ∨ w2 = pw1))) := by
-  unfold Gen.filterBodyPair
-  simp only [decide_eq_true_eq]
-  split_ifs <;> omega
+       (f = 0 ∧ w1 ≠ 0 ∧ w2 ≠ 0 ∧ (w1 = pw2 ∨ w2 = pw1))) :=
+  genFilterBodyPair_iff w1 pw1 as1 d1 w2 pw2 as2 d2 f
 
 /-- `filterBodyPair` does not depend on the order of the two bodies. -/
 theorem filterBodyPair_symm (w1 pw1 as1 d1 w2 pw2 as2 d2 f : Int) :
     (Gen.filterBodyPair (α := Float) w1 pw1 as1 d1 w2 pw2 as2 d2 f ≠ 0) ↔
-    (Gen.filterBodyPair (α := Float) w2 pw2 as2 d2 w1 pw1 as1 d1 f ≠ 0) := by
-  rw [filterBodyPair_spec, filterBodyPair_spec]
-  omega
+    (Gen.filterBodyPair (α := Float) w2 pw2 as2 d2 w1 pw1 as1 d1 f ≠ 0) :=
+  genFilterBodyPair_symm w1 pw1 as1 d1 w2 pw2 as2 d2 f
 
 /-- `filterBox` over the reals: boxes `(center, half-size)` are discarded iff on some axis the gap between them
     exceeds `margin`; so a pair whose margin-inflated boxes intersect is never pruned. -/
@@ -233,5 +230,188 @@ theorem filterSphereBox_spec (s1 s2 s3 bound c1 c2 c3 h1 h2 h3 : ℝ) :
     | (exact absurd h (by norm_num))
 
 end filters
+
+/-! ## The filters of the driver against the documented rule set -/
+
+section driver
+open MjProof.Spec.Collide
+variable (M : Model)
+
+/-- **filters_match_spec.**  On a well-formed compiled model the filters the driver applies are the documented
+    ones: the body-level call of the generated `filterBodyPair` is filter 3 (same body / welded / neither can
+    move / parent-child unless the parent is the world or the flag is off); for geoms `g1 ∈ b1`, `g2 ∈ b2` of a
+    broad-phase pair, `canCollide2` + the exclude scan + `filterCollisionPair` (generated `filterBitmask`, merge
+    window, sphere filter, function table) pass iff the rule set selects the pair; and the `exclude` scan is
+    membership in the exclude list. -/
+theorem filters_match_spec (hw : WF M) :
+    (∀ b1 b2, filterBody M b1 b2 = true ↔ bodyFiltered M b1 b2) ∧
+    (∀ s, excluded M s = true ↔ s ∈ M.excludes) ∧
+    (enabled M → ∀ (b : Fin M.nbody × Fin M.nbody) (g1 g2 : Fin M.ngeom), b.1.val < b.2.val →
+      filterBody M b.1 b.2 = false → g1 ∈ geomsOf M b.1 → g2 ∈ geomsOf M b.2 →
+      ((BodyPairOK M b ∧ DynOK M M.pairs g1 g2) ↔ Spec.Collide.Dynamic M g1 g2)) :=
+  ⟨filterBody_iff_spec M hw, excluded_iff M hw.excl_sorted,
+   fun he _ _ _ hlt hf h1 h2 => dynFrom_spec M hw he hlt hf h1 h2⟩
+
+/-- **`mj_broadphase` (model) is exact and sorted**: when it returns, its output is sorted by signature and is
+    exactly the set of ordered body pairs `(min, max)` of the init-loop pairs and of the SAP pairs that pass
+    `filterBodyPair`, restricted to the pairs whose OR-ed geom masks are compatible. -/
+theorem broadphase_exact {boxes : List (Box (Fin M.nbody) Float32 Float)} {maxpair : Nat}
+    {bfs : List (Fin M.nbody × Fin M.nbody)} (hg : ∃ g : Fin M.ngeom, (M.geom[g].bodyid).val ≠ 0)
+    (h : broadphase M boxes maxpair = .ok bfs) :
+    (∀ b, b ∈ bfs ↔ ∃ x y, ((x, y) ∈ initPairs M ∨ ((x, y) ∈ sapList M boxes ∧ filterBody M x y = false)) ∧
+        orCompat M x y ∧ b = ordPair M x y) ∧
+    bfs.Pairwise (fun a b => sigp M a ≤ sigp M b) :=
+  mem_broadphase M hg h
+
+/-- **driver_eq_bruteforce** (partial: see below).  For a well-formed model with at least two bodies and a geom
+    outside the world body, whenever the modelled `mj_collision` returns (no `broadphase buffer full` error):
+
+    * soundness — a geom pair `{g1, g2}` handed to the narrow phase through the body-pair mechanism is selected by
+      the documented rule set: collision enabled, not the same / welded / parent-child / both-immovable bodies,
+      contype/conaffinity compatible, bodies not excluded, no explicit pair on the two geoms, collision function
+      defined, bounding-sphere test with the margin passed;
+    * completeness — a pair that the rule set selects and whose geoms are `close` (any symmetric predicate for
+      "truly within margin"; the narrow phase reporting a contact is the intended instance) is handed to the
+      narrow phase, provided the broad phase is complete for `close` pairs (`BroadComplete`);
+    * explicit pairs — pair `k` is handed to the narrow phase iff collision is enabled and the pair passes the
+      function-table and bounding-sphere tests with its own margin (no bitmask, body or exclude filter).
+
+    Consequently the geom pairs that receive contacts (candidates for which the narrow phase reports a contact)
+    are exactly those of the brute-force rule set for which the narrow phase reports a contact.
+
+    **Partial**: (1) mid-phase body pairs are represented by their all-to-all candidate set (`flat`); the BVH
+    traversal `mj_collideTree`, which prunes inside that set, is not modelled; (2) `makeAAMM` is not modelled:
+    completeness assumes `BroadComplete` (for `close` geoms of two non-world bodies the body pair is covered by the
+    init loop or reported by `mj_SAP` on the given boxes) — `sap_complete` characterises `mj_SAP` on any boxes; that
+    the boxes bound the margin-inflated geoms is checked by the engine oracle only (and is false by less than one
+    float32 ulp: see `sap_touching`); (3) flexes, sleeping and `mjcb_contactfilter` are outside the model. -/
+theorem driver_eq_bruteforce_partial (hw : WF M) {boxes : List (Box (Fin M.nbody) Float32 Float)}
+    {items : List (Item M.nbody M.ngeom)} (h2 : 2 ≤ M.nbody)
+    (hg : ∃ g : Fin M.ngeom, (M.geom[g].bodyid).val ≠ 0)
+    (hsymm : ∀ a b, M.near a b = M.near b a)
+    (hok : collide M boxes = .ok items) :
+    (∀ g1 g2, (∃ c ∈ flat items, c.ipair = none ∧ ((c.g1 = g1 ∧ c.g2 = g2) ∨ (c.g1 = g2 ∧ c.g2 = g1))) →
+        Spec.Collide.Dynamic M g1 g2) ∧
+    (∀ (close : Fin M.ngeom → Fin M.ngeom → Prop), (∀ a b, close a b → close b a) → BroadComplete M close boxes →
+      ∀ g1 g2, Spec.Collide.Dynamic M g1 g2 → close g1 g2 →
+        ∃ c ∈ flat items, c.ipair = none ∧ ((c.g1 = g1 ∧ c.g2 = g2) ∨ (c.g1 = g2 ∧ c.g2 = g1))) ∧
+    (∀ c k, c.ipair = some k → (c ∈ flat items ↔ ∃ p, Explicit M p ∧ p.idx = k ∧ c = push M p.g1 p.g2 (some k))) :=
+  ⟨fun g1 g2 => collide_dynamic_sound M hw hg hsymm hok g1 g2,
+   fun _ hcs hb g1 g2 hD hcl => collide_dynamic_complete M hw h2 hg hsymm hcs hb hok g1 g2 hD hcl,
+   fun c k hk => collide_explicit M h2 hok c k hk⟩
+
+end driver
+
+/-! non-vacuity: a concrete well-formed model (world plane + one free sphere) satisfies every hypothesis of
+    `driver_eq_bruteforce_partial`, the modelled `mj_collision` returns the plane-sphere candidate on it, and the
+    theorem yields that the rule set selects that pair -/
+
+def exM : Model where
+  nbody := 2
+  ngeom := 2
+  body := #v[⟨0, 0, 0, 0, 1, 1, 1, false⟩, ⟨1, 0, 6, 1, 1, 1, 1, false⟩]
+  geom := #v[⟨0, 1, 1, 0⟩, ⟨2, 1, 1, 1⟩]
+  pairs := []
+  excludes := []
+  planeType := 0
+  dsblConstraint := false
+  dsblContact := false
+  dsblFilterParent := false
+  dsblMidphase := false
+  func := fun a b => a == 0 && b == 2
+  near := fun _ _ => true
+  nearPair := fun _ => false
+
+theorem exM_wf : WF exM where
+  nbody_le := by decide
+  geom_body := by decide
+  pair_sig := by intro p hp; cases hp
+  pairs_sorted := List.Pairwise.nil
+  excl_sorted := List.Pairwise.nil
+  body_masks := by decide
+  world := by decide
+
+def exG0 : Fin exM.ngeom := ⟨0, by decide⟩
+def exG1 : Fin exM.ngeom := ⟨1, by decide⟩
+
+theorem exM_broad : BroadComplete exM (fun _ _ => True) [] := by
+  intro a b _ ha hb hne
+  exfalso
+  have h1 : ∀ g : Fin exM.ngeom, (exM.geom[g].bodyid).val ≠ 0 → exM.geom[g].bodyid = ⟨1, by decide⟩ := by decide
+  exact hne ((h1 a ha).trans (h1 b hb).symm)
+
+example : collide exM [] = .ok [.cand ⟨exG0, exG1, none⟩] := by rfl
+
+example : broadphase exM [] 1 = .ok [(⟨0, by decide⟩, ⟨1, by decide⟩)] := by rfl
+
+example : Spec.Collide.Dynamic exM exG0 exG1 :=
+  (driver_eq_bruteforce_partial exM exM_wf (boxes := []) (items := [.cand ⟨exG0, exG1, none⟩]) (by decide)
+    ⟨exG1, by decide⟩ (fun _ _ => rfl) (by rfl)).1 exG0 exG1
+    ⟨⟨exG0, exG1, none⟩, by simp [flat, Item.cands], rfl, Or.inl ⟨rfl, rfl⟩⟩
+
+example : ∃ c ∈ flat [Item.cand (nbody := exM.nbody) ⟨exG0, exG1, none⟩], c.ipair = none ∧
+    ((c.g1 = exG0 ∧ c.g2 = exG1) ∨ (c.g1 = exG1 ∧ c.g2 = exG0)) :=
+  (driver_eq_bruteforce_partial exM exM_wf (boxes := []) (items := [.cand ⟨exG0, exG1, none⟩]) (by decide)
+    ⟨exG1, by decide⟩ (fun _ _ => rfl) (by rfl)).2.1 (fun _ _ => True) (fun _ _ h => h) exM_broad exG0 exG1
+    ((driver_eq_bruteforce_partial exM exM_wf (boxes := []) (items := [.cand ⟨exG0, exG1, none⟩]) (by decide)
+      ⟨exG1, by decide⟩ (fun _ _ => rfl) (by rfl)).1 exG0 exG1
+      ⟨⟨exG0, exG1, none⟩, by simp [flat, Item.cands], rfl, Or.inl ⟨rfl, rfl⟩⟩) trivial
+
+/-! ## Contact order -/
+
+section order
+variable {n : Nat}
+
+theorem contactCompare_le_iff (gtype : Fin n → Nat) (c1 c2 : Fin n × Fin n) :
+    contactCompare gtype c1 c2 ≤ 0 ↔
+      (contactKey gtype c1).1 < (contactKey gtype c2).1 ∨
+      ((contactKey gtype c1).1 = (contactKey gtype c2).1 ∧ (contactKey gtype c1).2 ≤ (contactKey gtype c2).2) := by
+  unfold contactCompare
+  simp only
+  split_ifs <;> omega
+
+/-- `contactcompare` is a total preorder (lexicographic order of the type-ordered geom pair) -/
+theorem contactCompare_totalPreorder (gtype : Fin n → Nat) : TotalPreorder (contactCompare gtype) := by
+  constructor
+  · intro a b; rw [contactCompare_le_iff, contactCompare_le_iff]; omega
+  · intro a b c; rw [contactCompare_le_iff, contactCompare_le_iff, contactCompare_le_iff]; omega
+
+/-- **contact_order_deterministic.**  `contactSort` (mjSORT with `contactcompare`) applied to any list of
+    contacts (`proj` extracts `(geom[0], geom[1])`; the rest of the record is payload): the result is a
+    permutation sorted by the key of `contactcompare`, and for every key the contacts with that key appear in their
+    original relative order.  Hence the sorted list is a function of the input list alone: keys ascending, equal
+    keys in generation order. -/
+theorem contact_order_deterministic {γ : Type} (gtype : Fin n → Nat) (proj : γ → Fin n × Fin n) (l : List γ) :
+    let cmp : γ → γ → Int := fun a b => contactCompare gtype (proj a) (proj b)
+    StableSorted cmp l (mjSort cmp l) ∧
+    ∀ k : Nat × Nat, [DecidableEq (Nat × Nat)] →
+      (mjSort cmp l).filter (fun c => decide (contactKey gtype (proj c) = k)) =
+        l.filter (fun c => decide (contactKey gtype (proj c) = k)) := by
+  intro cmp
+  have hc : TotalPreorder cmp :=
+    ⟨fun a b => (contactCompare_totalPreorder gtype).total _ _, fun a b c => (contactCompare_totalPreorder gtype).trans _ _ _⟩
+  have hst := MjProof.C22.mjSort_stableSorted hc l
+  refine ⟨hst, ?_⟩
+  intro k _
+  obtain ⟨hperm, _, hstable⟩ := hst
+  -- the contacts of one key form a sorted subsequence of the input, hence survive in order
+  have hsub : l.filter (fun c => decide (contactKey gtype (proj c) = k)) <+ mjSort cmp l := by
+    apply hstable _ filter_sublist
+    apply pairwise_of_forall_mem_list
+    intro a ha b hb
+    have ka : contactKey gtype (proj a) = k := by simpa using (mem_filter.mp ha).2
+    have kb : contactKey gtype (proj b) = k := by simpa using (mem_filter.mp hb).2
+    show contactCompare gtype (proj a) (proj b) ≤ 0
+    rw [contactCompare_le_iff, ka, kb]
+    exact Or.inr ⟨rfl, Nat.le_refl _⟩
+  have hsub2 := hsub.filter (fun c => decide (contactKey gtype (proj c) = k))
+  rw [filter_filter] at hsub2
+  simp only [Bool.and_self] at hsub2
+  have hlen : (l.filter (fun c => decide (contactKey gtype (proj c) = k))).length =
+      ((mjSort cmp l).filter (fun c => decide (contactKey gtype (proj c) = k))).length :=
+    (hperm.filter _).length_eq.symm
+  exact (hsub2.eq_of_length hlen).symm
+
+end order
 
 end MjProof.C14
